@@ -90,7 +90,15 @@ def handleC53 (c : Case) : Verdict :=
       let sameSub := ps.any fun p => match lookup l1 p, lookup l2 p with
         | some a, some b => a.meta.type == .dir && b.meta.type == .dir && a.meta.subtree == b.meta.subtree
         | _, _ => false
+      let dupSub (l : List Tree) : Bool :=
+        let ids := ((subL l).filter fun t => t.meta.type == .dir && !t.kids.isEmpty).map (·.meta.subtree)
+        ids.eraseDups.length < ids.length
+      let sameSet := ps.any fun p => match lookup l1 p, lookup l2 p with
+        | some a, some b => isM a.meta b.meta && a.meta.content.all (b.meta.content.contains ·) && b.meta.content.all (a.meta.content.contains ·)
+        | _, _ => false
       let labels :=
+        (if dupSub l1 || dupSub l2 then ["duplicate-subtree-in-snapshot"] else []) ++
+        (if sameSet then ["modified-same-blob-set"] else []) ++
         (if has "+" then ["added"] else []) ++ (if has "-" then ["removed"] else []) ++
         (if hasP (·.startsWith "T") then ["type-change"] else []) ++ (if typeChangeDir then ["type-change-nonempty-dir"] else []) ++
         (if hasP (fun m => m == "M" || m == "TM") then ["modified"] else []) ++ (if hasP (·.endsWith "?") then ["bitrot"] else []) ++
